@@ -468,6 +468,137 @@ def guards(repo):
     return out
 
 
+def _self_attr_stores(nodes):
+    """[(attr, value node or None)] for every store to self.<attr> inside the given statements"""
+    res = []
+    for st in nodes:
+        for n in ast.walk(st):
+            tgts = []
+            if isinstance(n, ast.Assign):
+                tgts = [(t, n.value) for t in n.targets]
+            elif isinstance(n, (ast.AugAssign, ast.AnnAssign)):
+                tgts = [(n.target, None)]
+            elif isinstance(n, ast.Delete):
+                tgts = [(t, None) for t in n.targets]
+            for t, v in tgts:
+                for el in (t.elts if isinstance(t, (ast.Tuple, ast.List)) else [t]):
+                    if isinstance(el, ast.Attribute) and isinstance(el.value, ast.Name) and el.value.id == 'self':
+                        res.append((el.attr, v if not isinstance(t, (ast.Tuple, ast.List)) else None))
+            if isinstance(n, ast.Call) and ast.unparse(n.func) in ('setattr', 'delattr') and n.args \
+                    and ast.unparse(n.args[0]) == 'self':
+                res.append(('<setattr>', None))
+    return res
+
+
+STATE_ATTRS = ('x', '_size', '_spline_basis', '_polynomial')
+
+
+def fitter_state(repo):
+    """Facts about the object state the guards read (1-D _Algorithm): what the method wrapper's exception
+    handlers reset, which attributes are caches built from self.x, and that nothing else writes them."""
+    tree, _ = _parse('pybaselines/_algorithm_setup.py', repo)
+    cls = [n for n in tree.body if isinstance(n, ast.ClassDef) and n.name == '_Algorithm']
+    if len(cls) != 1:
+        raise TranslateError('_Algorithm not found')
+    cls = cls[0]
+    methods = {n.name: n for n in cls.body if isinstance(n, ast.FunctionDef)}
+    reg = methods.get('_register')
+    if reg is None:
+        raise TranslateError('_Algorithm._register not found')
+    inner = [n for n in ast.walk(reg) if isinstance(n, ast.FunctionDef) and n.name == 'inner']
+    if len(inner) != 1:
+        raise TranslateError('_register: wrapper function inner not found')
+    inner = inner[0]
+    # the call of the wrapped method
+    fcalls = [n for n in ast.walk(inner) if isinstance(n, ast.Call) and ast.unparse(n.func) == 'func']
+    if len(fcalls) != 1 or not ast.unparse(fcalls[0]).startswith('func(self, y,'):
+        raise TranslateError('_register.inner: expected exactly one call func(self, y, ...)')
+    # entry: x generated from the data when self.x is None, else the data length is checked against _size
+    first, aliases = None, set()
+    for st in inner.body:
+        if isinstance(st, ast.Assign) and len(st.targets) == 1 and isinstance(st.targets[0], ast.Name) \
+                and ast.unparse(st.value) == 'self.x is None':
+            aliases.add(st.targets[0].id)        # a flag remembering the test
+            continue
+        if isinstance(st, ast.If) and (ast.unparse(st.test) == 'self.x is None' or ast.unparse(st.test) in aliases):
+            first = st
+        break
+    if first is None:
+        raise TranslateError('_register.inner: does not start with the test `self.x is None`')
+    st_none = [(a, ast.unparse(v) if v is not None else '?') for a, v in _self_attr_stores(first.body)]
+    if sorted(st_none) != [('_size', 'y.shape[-1]'), ('x', 'x')]:
+        raise TranslateError(f'_register.inner: stores in the `self.x is None` branch changed: {st_none}')
+    if 'y, x = _yx_arrays(data,' not in ast.unparse(first):
+        raise TranslateError('_register.inner: x is not generated by _yx_arrays(data, ...)')
+    else_src = '\n'.join(ast.unparse(s_) for s_ in first.orelse)
+    if '_check_sized_array(data, self._size,' not in else_src:
+        raise TranslateError('_register.inner: data length is not checked against self._size when x exists')
+    if [a for a, _ in _self_attr_stores(first.orelse) if a in STATE_ATTRS]:
+        raise TranslateError('_register.inner: state written in the branch where x exists')
+    # exception handlers / finally blocks of every try in the wrapper
+    handlers = []
+    accounted = set()
+    for n in ast.walk(inner):
+        if isinstance(n, ast.Try) or n.__class__.__name__ == 'TryStar':
+            blocks = [h.body for h in n.handlers] + ([n.finalbody] if n.finalbody else [])
+            for blk in blocks:
+                attrs = []
+                for a, v in _self_attr_stores(blk):
+                    if a == '<setattr>':
+                        raise TranslateError('_register.inner: setattr/delattr on self in an exception path')
+                    if v is None or not (isinstance(v, ast.Constant) and v.value is None):
+                        if a in STATE_ATTRS:
+                            raise TranslateError(f'_register.inner: exception path assigns self.{a} something other than None')
+                    attrs.append(a)
+                    accounted.add(id(blk))
+                handlers.append(attrs)
+        if isinstance(n, ast.With):
+            raise TranslateError('_register.inner: with-statement (context manager exit paths are not modelled)')
+    # every other store to the state attributes in the wrapper must be the entry branch
+    all_inner = [a for a, _ in _self_attr_stores(inner.body) if a in STATE_ATTRS]
+    in_handlers = [a for h in handlers for a in h if a in STATE_ATTRS]
+    if sorted(all_inner) != sorted(['x', '_size'] + in_handlers):
+        raise TranslateError(f'_register.inner: unexpected stores to fitter state: {all_inner}')
+    # caches: attributes assigned by the _setup_* methods
+    caches = set()
+    for name, m in methods.items():
+        if name.startswith('_setup_'):
+            for a, _ in _self_attr_stores(m.body):
+                caches.add(a)
+    # other writers of the state anywhere in the class (outside __init__, the wrapper, the _setup_* methods)
+    others = []
+    for n in cls.body:
+        if isinstance(n, ast.FunctionDef) and n.name not in ('__init__', '_register') and not n.name.startswith('_setup_'):
+            for a, _ in _self_attr_stores(n.body):
+                if a in STATE_ATTRS or a == '<setattr>':
+                    others.append(f'{n.name}:{a}')
+    # the cache statement of _setup_spline and the weight-length check
+    src = ast.unparse(methods['_setup_spline'])
+    for need in ('_check_optional_array(self._size, weights,',
+                 'if self._spline_basis is None or not self._spline_basis.same_basis(num_knots, spline_degree):',
+                 'self._spline_basis = SplineBasis(self.x, num_knots, spline_degree)',
+                 'pspline = PSpline(self._spline_basis, lam, diff_order, allow_lower, reverse_diags)'):
+        if need not in src:
+            raise TranslateError('_setup_spline: statement changed or missing: ' + need)
+    src = ast.unparse(methods['_setup_polynomial'])
+    for need in ('self._polynomial = _PolyHelper(self.x, self.x_domain, poly_order)',
+                 'self._polynomial.recalc_vandermonde(self.x, self.x_domain, poly_order)'):
+        if need not in src:
+            raise TranslateError('_setup_polynomial: statement changed or missing: ' + need)
+    # SplineBasis.same_basis is keyed on (num_knots, spline_degree) only
+    tree2, _ = _parse('pybaselines/_spline_utils.py', repo)
+    sb = ast.unparse(_method(tree2, 'SplineBasis', 'same_basis'))
+    if 'return num_knots == self.num_knots and spline_degree == self.spline_degree' not in sb:
+        raise TranslateError('SplineBasis.same_basis changed')
+
+    def sl(items):
+        return '[' + '; '.join(_coq_str(i) + '%string' for i in items) + ']'
+    return ['Definition wrapper_handlers : list (list string) := ['
+            + '; '.join(sl(h) for h in handlers) + '].',
+            f'Definition fitter_cache_attrs : list string := {sl(sorted(caches))}.',
+            f'Definition fitter_other_writers : list string := {sl(others)}.']
+
+
 def gen_kernels(repo=None):
     rows = kernel_table(repo)
     out = ['(* GENERATED by tools/translate.py (gen_kernels.py) from pybaselines/*.py -- do not edit *)',
@@ -481,6 +612,7 @@ def gen_kernels(repo=None):
     out.append('].')
     out.append('')
     out += guards(repo)
+    out += fitter_state(repo)
     return '\n'.join(out) + '\n'
 
 
